@@ -127,7 +127,9 @@ CHECKS = {
         level="exploration",
         rule="clone / clone_empty / clone_empty_in(Heap|Guard|Stack|StackN) from every abstract state on every Cloneable configuration, followed by every single "
              "element-wise operation on the original and on the clone; monitors: Vec model of both vectors, Clone-event log (each source id exactly once), storage base "
-             "pointers pairwise distinct; non-trivial = every case",
+             "pointers pairwise distinct; plus Clone::clone_from between vectors of 26 element-type pairs (same layout/different type, same type, different "
+             "layouts, zero-sized), after which the destination, its clones, its lazy clones and its empty clone must all behave as the source's element type; "
+             "non-trivial = every case",
         runs=[dict(mode="rel"), dict(mode="dbg", args=["--sub", "light"]), dict(mode="miri", args=["--quota", "60"], tiers=("thorough",), timeout=7200)],
         floors={"any": {"evaluations": 5000, "clone_events": 5000}},
         assumptions=BEHAVIOUR_ASSUMPTIONS,
